@@ -193,6 +193,24 @@ class World:
 
         self._patched.append((ffc.FrameFragmentCache, 'append', orig_append))
         ffc.FrameFragmentCache.append = tapped_append
+        import rsocket.frame_parser as fpm
+        orig_receive = fpm.FrameParser.receive_data
+
+        async def guarded_receive(parser, data, header_length=3):
+            # deterministic termination guard: one call can yield at most one frame per 3 bytes
+            # (byte stream) or one frame (message) -- anything beyond is a non-terminating parser
+            bound = (len(parser._buffer) + len(data)) // 3 + 8 if header_length else 4
+            n = 0
+            async for frame in orig_receive(parser, data, header_length):
+                n += 1
+                if n > bound:
+                    world.stats['parser_guard'] = world.stats.get('parser_guard', 0) + 1
+                    world.rec('guard', what='parser_nontermination', input_len=len(data), header_length=header_length)
+                    raise RuntimeError('sim: FrameParser.receive_data does not terminate on this input')
+                yield frame
+
+        self._patched.append((fpm.FrameParser, 'receive_data', orig_receive))
+        fpm.FrameParser.receive_data = guarded_receive
         asyncio.set_event_loop(self.loop)
         gc.collect()
         gc.disable()
